@@ -103,7 +103,7 @@ func (e *E) genName(depth int, noContainer bool) Name {
 		// the name is the value of another reference: ${${k}} — bind k to a name
 		return Name{Nested: &Ref{Name: Name{Path: "k"}}}
 	}
-	return Name{Path: allNames[t.Choose(len(allNames)-boolInt(noContainer), "ref-name")]}
+	return Name{Path: allNames[t.Choose(len(allNames)-2*boolInt(noContainer), "ref-name")]}
 }
 
 func boolInt(b bool) int {
@@ -233,6 +233,26 @@ func layerToGo(l map[string]*setting) map[string]interface{} {
 			m[p] = settingToGo(s)
 		}
 	}
+	// a sub-map whose keys are all indices is a list
+	for k, v := range m {
+		sub, ok := v.(map[string]interface{})
+		if !ok || len(sub) == 0 {
+			continue
+		}
+		l := make([]interface{}, len(sub))
+		isList := true
+		for ik, iv := range sub {
+			i, err := strconv.Atoi(ik)
+			if err != nil || i < 0 || i >= len(l) {
+				isList = false
+				break
+			}
+			l[i] = iv
+		}
+		if isList {
+			m[k] = l
+		}
+	}
 	return m
 }
 
@@ -267,6 +287,11 @@ func (e *E) Setup() {
 	nset := 2 + t.Choose(5, "n-settings")
 	for i := 0; i < nset; i++ {
 		name := rootNames[t.Choose(len(rootNames), "setting-name")]
+		if name == "l.1" {
+			if _, ok := e.root["l.0"]; !ok {
+				name = "l.0" // a list has no holes
+			}
+		}
 		if _, dup := e.root[name]; dup {
 			continue
 		}
@@ -283,7 +308,7 @@ func (e *E) Setup() {
 	}
 	// the name used by nested references: k names another setting
 	if t.Bool("bind-k") {
-		e.root["k"] = &setting{lit: &Val{K: VStr, S: allNames[t.Choose(len(allNames)-1, "k-target")]}}
+		e.root["k"] = &setting{lit: &Val{K: VStr, S: allNames[t.Choose(len(allNames)-2, "k-target")]}}
 	}
 	nenv := t.Choose(3, "n-env")
 	if e.R.Avoid["O17"] {
@@ -578,7 +603,7 @@ func (e *E) evalName(n Name) Outcome {
 			}
 			return Outcome{E: EErr}
 		}
-		return Outcome{V: d}
+		return Outcome{V: listify(d)}
 	}
 	// 2. Env configs, most recently added first
 	for i := len(e.envs) - 1; i >= 0; i-- {
@@ -1147,7 +1172,23 @@ func (e *E) contentsOf(origin string) Outcome {
 		}
 		return *bad
 	}
-	return Outcome{V: d}
+	return Outcome{V: listify(d)}
+}
+
+// listify turns a dictionary whose keys are exactly 0..n-1 into a list.
+func listify(d *Val) *Val {
+	if d.K != VDict || len(d.D) == 0 {
+		return d
+	}
+	l := make([]*Val, len(d.D))
+	for k, v := range d.D {
+		i, err := strconv.Atoi(k)
+		if err != nil || i < 0 || i >= len(l) {
+			return d
+		}
+		l[i] = v
+	}
+	return &Val{K: VList, L: l}
 }
 
 func describeOutcome(o Outcome) string {
@@ -1229,11 +1270,18 @@ func (e *E) readAll() {
 func lookupGo(m map[string]interface{}, path string) interface{} {
 	var cur interface{} = m
 	for _, seg := range strings.Split(path, ".") {
-		mm, ok := cur.(map[string]interface{})
-		if !ok {
+		switch c := cur.(type) {
+		case map[string]interface{}:
+			cur = c[seg]
+		case []interface{}:
+			i, err := strconv.Atoi(seg)
+			if err != nil || i < 0 || i >= len(c) {
+				return nil
+			}
+			cur = c[i]
+		default:
 			return nil
 		}
-		cur = mm[seg]
 	}
 	return cur
 }
@@ -1244,6 +1292,9 @@ func (e *E) Drift() {
 	switch t.Weighted([]int{3, 2, 2, 1}, "drift-kind") {
 	case 0: // merge a new value for a (possibly referenced) name into the root
 		name := rootNames[t.Choose(len(rootNames), "drift-name")]
+		if name == "l.1" {
+			return // (a merge that names only index 1 pads index 0 with a nil, which replaces a primitive there)
+		}
 		old := e.root[name]
 		var ns *setting
 		if old != nil && old.lit != nil && (old.lit.K == VDict || old.lit.K == VList) {
@@ -1256,6 +1307,9 @@ func (e *E) Drift() {
 		}
 		in := layerToGo(map[string]*setting{name: ns})
 		var err error
+		if old != nil && old.expr != nil && strings.HasPrefix(name, "l.") {
+			return // (replacing an expression goes through Remove, which would renumber the list)
+		}
 		if old != nil && old.expr != nil {
 			// Merge evaluates the old value to decide whether both sides are containers; what that
 			// does when a reference points into the subtree being merged is outside C02/C08
@@ -1311,6 +1365,9 @@ func (e *E) Drift() {
 			return
 		}
 		name := names[t.Choose(len(names), "drift-remove")]
+		if strings.HasPrefix(name, "l.") {
+			return // (removing a list element renumbers the others: not modelled here, see E1)
+		}
 		var err error
 		e.R.MustComplete("Remove", func() { _, err = e.rootCfg.Remove(name, -1, e.baseOpts...) })
 		if err != nil {
